@@ -45,7 +45,10 @@ MANIFEST = dict(
          "directory later than the unfiltered one - the LAG; it is covered by a bisimulation on normal forms, C11_lag_step / "
          "C11_norm_fwd / C11_norm_bwd / C11_inert, under one filter-independent executable hypothesis on the UNFILTERED run, "
          "tidy_from: at drained points the reader's tables mention live kernel watches only; non-recursive watches and the "
-         "pinned reader need no such hypothesis); C11_pipeline_tie_filtered / C11_pipeline_transparent_step tie one drained operation "
+         "pinned reader need no such hypothesis; on the histories of C02's sequential theorem - covered operations and "
+         "directory move-outs from Inotify.__init__, CoverOutProofs.ops_x - the hypothesis is discharged by the cover "
+         "invariant: C11_transparent_sequential(_all)_covered, C11_handler_sequential_covered, C11_full_drained_covered, "
+         "non-vacuity C11_covered_lag_nonvacuous); C11_pipeline_tie_filtered / C11_pipeline_transparent_step tie one drained operation "
          "to Pipeline.prun with pc_filter. C11_table_refuted_pinned / C11_item_stream_refuted_pinned record F6. The "
          "unrestricted statement is kept as C11_full (gaps: undrained bursts, the skip-repeats queue, the induction over "
          "whole Pipeline histories) and is checked on the real kernel by the two-watch oracle.",
@@ -74,8 +77,9 @@ ASSUMPTIONS = [
     "repaired reader (F10), recursive watches: the history theorems assume tidy_from - at every drained point of the "
     "UNFILTERED run the (settled) reader's _path_for_wd/_wd_for_path mention descriptors of live kernel watches only. It "
     "says nothing about the filter, is executable (tidy_fromb) and is discharged by vm_compute in C11_lag_covered / "
-    "C11_full_drained_lag_nonvacuous; it is a part of C02's cover invariant at synced states (WInv.wi_tight) plus 'no "
-    "stale key in _path_for_wd', which is not derived in Coq for arbitrary histories",
+    "C11_full_drained_lag_nonvacuous; it is PROVED from C02's cover invariant on the histories of C02's sequential theorem "
+    "(TidyCoverProofs.tidy_from_covered; the _covered variants of the C11 history theorems carry no tidy hypothesis) and "
+    "remains a hypothesis only outside them (operations C02 does not classify as covered, injected add_watch faults)",
     "end-to-end oracle: operations are issued one at a time with a drain in between (the regime of the proved theorem)",
     "filters are built from the 11 concrete event classes and the 2 base classes of watchdog.events",
 ]
